@@ -71,6 +71,8 @@ EXPLANATION = ("Theorems: csv_split(csv_join rows) = rows for all rows without l
                "real corpus round trip on the Python side.")
 MAX_DISCARD = 1.0
 
+# the largest corpus files (3.7 MB, 130 000 votes) need ~30 s alone for parse/write/parse; more under load
+os.environ.setdefault("VERIF_CASE_TIMEOUT", "400")
 SEED = int(os.environ.get("VERIF_SEED", "1"))
 REPO = os.environ.get("VERIF_REPO", "/repo")
 NCORPUS_QUICK = 40
@@ -258,8 +260,10 @@ def qj(x):
     return None if x is None else core.qj(x)
 
 
-def dump(inst, prof):
-    """(Instance, Profile) -> election dict (exact values; sets sorted)"""
+def dump(inst, prof, flags=True):
+    """(Instance, Profile) -> election dict (exact values; sets sorted).  flags: record as a pseudo metadata entry
+    when project_meta[p]["categories"/"targets"] or instance.categories/targets are not the union they should be
+    (they legitimately are not in files with duplicated project rows / list columns: the "exotic" stream)"""
     from pabutools.election.profile import (AbstractApprovalProfile, AbstractCumulativeProfile,
                                             AbstractCardinalProfile, AbstractOrdinalProfile)
     if isinstance(prof, AbstractApprovalProfile):
@@ -279,9 +283,9 @@ def dump(inst, prof):
         meta = [[str(k), str(v)] for k, v in pm.items() if k not in ("categories", "targets")]
         cats = sorted(str(c) for c in (p.categories or ()))
         tgs = sorted(str(c) for c in (p.targets or ()))
-        if "categories" in pm and sorted(pm["categories"]) != cats:
+        if flags and "categories" in pm and sorted(pm["categories"]) != cats:
             meta.append(["__categories_mismatch__", repr(pm["categories"])])
-        if "targets" in pm and sorted(pm["targets"]) != tgs:
+        if flags and "targets" in pm and sorted(pm["targets"]) != tgs:
             meta.append(["__targets_mismatch__", repr(pm["targets"])])
         allc.update(cats)
         allt.update(tgs)
@@ -304,9 +308,9 @@ def dump(inst, prof):
          "min_score": qj(getattr(prof, "legal_min_score", None)),
          "max_score": qj(getattr(prof, "legal_max_score", None))}
     meta = [[str(k), str(v)] for k, v in inst.meta.items()]
-    if set(inst.categories or ()) != allc:
+    if flags and set(inst.categories or ()) != allc:
         meta.append(["__instance_categories_mismatch__", repr(sorted(inst.categories))])
-    if set(inst.targets or ()) != allt:
+    if flags and set(inst.targets or ()) != allt:
         meta.append(["__instance_targets_mismatch__", repr(sorted(inst.targets))])
     return {"meta": meta, "projects": projects, "budget": core.qj(inst.budget_limit), "vtype": vt,
             "ballots": ballots, "limits": L}
@@ -439,10 +443,11 @@ def gen_election(rng, flag=None):
     return E
 
 
-def gen_rt(rng, i):
+def gen_rt(rng, i, tier="quick"):
     flag = None
     r = rng.random()
-    if r < 0.06:
+    # the driver examines the first 40 oracle failures only: keep the recorded-finding streams below that
+    if r < (0.025 if tier == "quick" else 0.003):
         flag = FINDING_FLAGS[rng.randrange(len(FINDING_FLAGS))]
     E = gen_election(rng, flag)
     opts = {"int_costs": rng.random() < 0.7, "parsed_like": rng.random() < 0.4, "multi": False}
@@ -643,6 +648,7 @@ def gen_file(rng, i):
         cols = [c if c != "cost" else "price" for c in cols]
     rows.append(("row", [kw("PROJECTS")]))
     rows.append(("row", [pad(rng, c) for c in cols]))
+    pheader_idx, prow_idx, vrow_idx = len(rows) - 1, [], []
     projects = []
     for p in E0["projects"]:
         blank()
@@ -680,6 +686,7 @@ def gen_file(rng, i):
         if bad == "long_project_row":
             cells = cells + ["x"] * (len(cols) - len(cells) + 1)
         rows.append(("row", cells))
+        prow_idx.append(len(rows) - 1)
         projects.append({"name": p["name"], "cost": p["cost"], "cats": cats, "targets": tgs, "meta": imeta})
     # ---- VOTES
     vextra = []
@@ -729,9 +736,16 @@ def gen_file(rng, i):
         if rng.random() < 0.1:
             cells.append(none_cell(rng))                      # a surplus None cell is skipped by the parser
         rows.append(("row", cells))
+        vrow_idx.append(len(rows) - 1)
+        if len(cells) == 1 and not cells[0].strip():
+            continue                                          # one blank cell = a blank line, not a vote
         ballots.append({"projects": sorted(names) if vt == "approval" else names, "points": list(b["points"]),
                         "meta": imeta, "mult": 1})
+    if bad is None and rng.random() < 0.14:
+        bad = exotic(rng, rows, pheader_idx, prow_idx, vrow_idx, vcols, vt)
     text = render(rng, rows)
+    if bad is not None and bad.startswith("exotic"):
+        return {"kind": "file", "E": None, "text": text, "bad": bad}
     if bad is not None:
         if bad in ("unknown_project", "few_points", "no_vote_col") and not E0["ballots"]:
             bad = None
@@ -746,13 +760,68 @@ def gen_file(rng, i):
     return {"kind": "file", "E": E, "text": text, "bad": None}
 
 
+def exotic(rng, rows, pheader_idx, prow_idx, vrow_idx, vcols, vt):
+    """legal-but-odd files: no intended election is stated, only library vs model is compared"""
+    kind = rng.choice(["dup_project_row", "dup_column", "repeat_vote", "junk_before_meta", "second_meta",
+                       "open_quote", "dup_vote_column"])
+    if kind == "dup_project_row" and prow_idx:
+        j = rng.choice(prow_idx)
+        cells = list(rows[j][1])
+        for t in range(1, len(cells)):
+            if rng.random() < 0.5:
+                cells[t] = rng.choice(["1", "2.5", "None", "zz", cells[t]])
+        rows.insert(rng.choice([j + 1, prow_idx[-1] + 1]), ("row", cells))
+    elif kind == "dup_column":
+        hdr = list(rows[pheader_idx][1])
+        hdr.append(rng.choice(hdr[1:] + ["cost", "category"]))
+        rows[pheader_idx] = ("row", hdr)
+        for j in prow_idx:
+            cells = list(rows[j][1])
+            cells += ["None"] * (len(hdr) - 1 - len(cells))
+            cells.append(rng.choice(["7", "None", "a,b", "1,5"]))
+            rows[j] = ("row", cells)
+    elif kind == "repeat_vote" and vrow_idx and "vote" in vcols:
+        j = rng.choice(vrow_idx)
+        cells = list(rows[j][1])
+        vi = vcols.index("vote")
+        if vi < len(cells) and cells[vi].strip():
+            first = cells[vi].strip().split(",")[0]
+            cells[vi] = cells[vi].strip() + "," + first
+            if "points" in vcols and vcols.index("points") < len(cells):
+                pi = vcols.index("points")
+                cells[pi] = cells[pi].strip() + ",4"
+            rows[j] = ("row", cells)
+    elif kind == "junk_before_meta":
+        rows.insert(0, ("row", ["junk", "1"]))
+        rows.insert(0, ("row", ["budget", "999"]))
+    elif kind == "second_meta":
+        rows += [("row", ["META"]), ("row", ["key", "value"]), ("row", ["comment", "late"]),
+                 ("row", ["max_length", "1"])]
+    elif kind == "open_quote":
+        j = rng.randrange(2, len(rows))
+        rows.insert(j, ("blank", rng.choice(['note;"open', 'x"y;"z"w;"', '"a"b;c'])))
+    elif kind == "dup_vote_column" and vrow_idx:
+        hj = vrow_idx[0] - 1
+        while rows[hj][0] != "row":
+            hj -= 1
+        hdr = list(rows[hj][1])
+        hdr.append(rng.choice(hdr))
+        rows[hj] = ("row", hdr)
+        for j in vrow_idx:
+            cells = list(rows[j][1])
+            cells += ["None"] * (len(hdr) - 1 - len(cells))
+            cells.append(rng.choice(["7", "None", cells[0]]))
+            rows[j] = ("row", cells)
+    return "exotic:" + kind
+
+
 def gen(rng, i, tier):
     sel = corpus_selection(tier)
     if i < len(sel):
         return {"kind": "corpus", "path": sel[i]}
     j = i - len(sel)
     if j % 5 in (0, 1, 2):
-        return gen_rt(rng, j)
+        return gen_rt(rng, j, tier)
     return gen_file(rng, j)
 
 
@@ -795,7 +864,7 @@ def impl(case):
             i1, p1 = parse_pabulib_from_string(case["text"])
             if p1 is None:
                 raise ValueError("no profile")
-            out1 = dump(i1, p1)
+            out1 = dump(i1, p1, flags=not str(case.get("bad") or "").startswith("exotic"))
         except Exception as e:      # noqa
             if case["E"] is not None:
                 raise
@@ -979,6 +1048,9 @@ def corpus_check(path):
     r = compare_elections(E1, E2, full=False)
     if r:
         return {"code": 20, "detail": r, "summary": summary}
+    if len(text) > 1500000:
+        summary["third_parse"] = False          # second round trip only for files below 1.5 MB
+        return {"code": 0, "summary": summary}
     t3 = election_as_pabulib_string(i2, p2)
     i3, p3 = parse_pabulib_from_string(t3)
     E3 = dump(i3, p3)
@@ -1013,7 +1085,7 @@ def stats(cases, obs):
     d = {"rt": 0, "file": 0, "file_malformed": 0, "corpus": 0, "vtype": {}, "multiprofile": 0, "parsed_like": 0,
          "fractional_cost": 0, "special_char_in_id": 0, "special_char_in_meta": 0, "with_categories": 0,
          "with_limits": 0, "limit_kept": 0, "limit_defaulted": 0, "ballot_order_checked": 0, "flag": {},
-         "quoted_text": 0, "crlf": 0, "blank_lines": 0, "corpus_votes": 0, "corpus_bytes": 0, "corpus_vtype": {},
+         "with_empty_ballot": 0, "no_project_meta_entry": 0, "quoted_text": 0, "crlf": 0, "blank_lines": 0, "corpus_votes": 0, "corpus_bytes": 0, "corpus_vtype": {},
          "corpus_quoted": 0, "corpus_with_limits": 0, "malformed_kinds": {}}
     for c, o in zip(cases, obs):
         if not isinstance(o, dict):
@@ -1052,6 +1124,8 @@ def stats(cases, obs):
         d["special_char_in_meta"] += any((";" in v) or ('"' in v) for p in E["projects"] for _, v in p["meta"]) or any(
             (";" in v) or ('"' in v) for b in E["ballots"] for _, v in b["meta"])
         d["with_categories"] += any(p["cats"] for p in E["projects"])
+        d["with_empty_ballot"] += any(not b["projects"] for b in E["ballots"])
+        d["no_project_meta_entry"] += bool(k == "rt" and c["opts"].get("no_project_meta"))
         lims = [kk for kk, v in E["limits"].items() if v is not None]
         d["with_limits"] += bool(lims)
         out = o.get("out1")
